@@ -64,7 +64,7 @@ def strategy(tier):
                             a["expr"] = ["bin", "+", a["expr"], ["var", nm]]
         need = [X.deriv_name(s["name"]) for s in model["states"]]
         pts = G.draw_points(draw, model, 2, need)
-        return {"model": model, "points": pts, "split": draw(st.sampled_from(comps)), "backend": draw(st.sampled_from(["numpy", "numpy", "C", "C", "jax"])), "dt": 0.01, "c_probe": draw(st.integers(0, 7)) == 0, "permute": draw(st.booleans())}
+        return {"model": model, "points": pts, "split": draw(st.sampled_from(comps)), "backend": draw(st.sampled_from(["numpy", "numpy", "C", "C", "jax"])), "dt": 0.01, "c_probe": draw(st.integers(0, 7)) == 0, "permute": draw(st.booleans()), "remove_unused": draw(st.sampled_from([False, False, True]))}
 
     return _s()
 
@@ -89,12 +89,12 @@ def used_not_defined(sub) -> set:
     return used - defined
 
 
-def build(backend, ode, missing_values, sub=None):
+def build(backend, ode, missing_values, sub=None, remove_unused=False):
     try:
         if backend == "C":
-            code = B.c_code(ode, schemes=["explicit_euler"], missing_values=missing_values or None)
+            code = B.c_code(ode, schemes=["explicit_euler"], missing_values=missing_values or None, remove_unused=remove_unused)
         else:
-            code = B.py_code(ode, schemes=["explicit_euler"], backend=backend, missing_values=missing_values or None)
+            code = B.py_code(ode, schemes=["explicit_euler"], backend=backend, missing_values=missing_values or None, remove_unused=remove_unused)
     except Exception as ex:
         raise GenError("codegen", ex, None)
     try:
@@ -115,7 +115,7 @@ def check_case(case):
     backend = case["backend"]
     all_comps = sorted({x["comps"][0] for x in model["states"] + model["params"] + model["assigns"]})
     cname = case["split"]
-    ctx = {"text": text, "split": cname, "backend": backend}
+    ctx = {"text": text, "split": cname, "backend": backend, "remove_unused": case.get("remove_unused", False)}
     try:
         comp = ode.get_component(cname)
         ode_a = comp.to_ode()
@@ -149,7 +149,7 @@ def check_case(case):
         wanted[label] = mv
     for label, o, sub, other in sides:
         try:
-            mods[label] = build(backend, o, wanted[label], sub)
+            mods[label] = build(backend, o, wanted[label], sub, remove_unused=case.get("remove_unused", False))
         except GenError as ex:
             raise Violation(f"C13:{backend}:{label}:{ex.signature()}", dict(ctx, error=str(ex)[:800], code=ex.code))
     deep_export = False
